@@ -2,5 +2,5 @@ R BHS.Crash
 R BHS.ChainFields
 X Crash.crash_state Crash.fault_kind Crash.struct_validb Crash.persistb Crash.crash_run ChainFields.restart
 X Crash.same_ids
-X Crash.commit_crash_state
+X Crash.commit_crash_state Crash.commit_fault_kind
 X Crash.stmt_fault_state Crash.stmt_fault_hits
